@@ -431,6 +431,6 @@ STREAMS = [
     Stream("best_match", gen_best_match, run_best_match, quick=20000, thorough=1000000),
     Stream("best_match_quirk_names", gen_quirk, run_best_match, quick=500, thorough=20000, shards=2),
     Stream("small_universe", gen_small_universe, run_best_match, quick=6000, thorough=1, shards=16, exhaustive_thorough=True),
-    Stream("repo_update_git", gen_repo, run_repo, quick=240, thorough=3000, shards=16),
-    Stream("repo_history_git", gen_repo_history, run_repo_history, quick=96, thorough=1500, shards=16),
+    Stream("repo_update_git", gen_repo, run_repo, quick=240, thorough=20000, shards=16),
+    Stream("repo_history_git", gen_repo_history, run_repo_history, quick=96, thorough=10000, shards=16),
 ]
